@@ -149,6 +149,7 @@ type c19Corpus struct {
 	bigMasks []uint32 // heights up to 30 (PathToIndex)
 	vals     [][]uint64
 	bwWords  [4][][]byte // in-range words per width
+	bigStrs  []string    // a batch of 5000 short strings (FromStrs/ToStrs beyond 2^12 elements)
 }
 
 func c19EncModel(s string, from, to int) []byte {
@@ -273,6 +274,13 @@ func c19Build(seed int64, a *c19Arena) *c19Corpus {
 			m = uint32(1) << uint(h)
 		}
 		c.bigMasks = append(c.bigMasks, m)
+	}
+	{
+		big := make([]string, 5000)
+		for i := range big {
+			big[i] = string(gen.ZooBytes(r, r.Intn(5)))
+		}
+		c.bigStrs = a.strs(big)
 	}
 	for i := 0; i < 40; i++ {
 		v := make([]uint64, r.Intn(60))
